@@ -248,7 +248,7 @@ CONDITIONS = [
              'sharded by (fallback kind, substitute kind incl. falsy)',
      'tiers': {'quick': {'bounds': {'LREC': 2, 'LREP': 1, 'RECOPS': [0, 2, 3], 'REPOPS': [0]}, 'timeout': 300,
                          'shards': _SH, 'witness_shard': _W},
-               'thorough': {'bounds': {'LREC': 3, 'LREP': 2, 'RECOPS': [0, 1, 2, 3, 4], 'REPOPS': [0, 1]}, 'timeout': 3000,
+               'thorough': {'bounds': {'LREC': 3, 'LREP': 2, 'RECOPS': [0, 2, 3], 'REPOPS': [0, 1]}, 'timeout': 3000,
                             'shards': _SH, 'witness_shard': _W}}},
     {'fn': 'policy_programs', 'nontrivial': 'missing-key-policy',
      'what': 'independent recorded and replayed programs over two input aliases, a legacy alias and an output',
@@ -256,7 +256,7 @@ CONDITIONS = [
                          'shards': [{'fallback': 1, 'subst': 5, 'first': x, 'firstrep': y} for x in (None, 0, 2, 6)
                                     for y in (None, 0, 1, 6)],
                          'witness_shard': {'fallback': 1, 'subst': 5, 'first': 0, 'firstrep': 1}},
-               'thorough': {'bounds': {'LREC': 3, 'LREP': 3, 'RECOPS': [0, 1, 2, 3, 4, 5, 6], 'REPOPS': [0, 1, 4, 5, 6]},
+               'thorough': {'bounds': {'LREC': 2, 'LREP': 2, 'RECOPS': [0, 1, 2, 3, 4, 5, 6], 'REPOPS': [0, 1, 4, 5, 6]},
                             'timeout': 6000,
                             'shards': [{'fallback': f, 'subst': sb, 'first': x, 'firstrep': y}
                                        for f, sb in ((1, 5), (3, 1), (0, 0), (2, 6))
